@@ -46,7 +46,11 @@ func mutCase(kind string, img *hu.Img, ms ...mut) core.Case {
 // zeroVectorSignature: a padding of 40 bytes and a volume whose reserved zero vector holds "_FVG…":
 // changing the 'G' into 'H' makes the volume scan find a *different*, header-valid volume 40 bytes
 // earlier (NVAR file system, so no files are looked at) that swallows the real one.
-func zeroVectorSignature() (*hu.Img, mut) {
+func zeroVectorSignature() (*hu.Img, mut) { return zeroVectorSignatureAfter(nil) }
+
+// zeroVectorSignatureAfter: the same construction behind a first volume (the scan for the second volume
+// starts at the end of the first one): the exception of theorem c09_alter_detected_image in a later volume.
+func zeroVectorSignatureAfter(first *hu.FV) (*hu.Img, mut) {
 	real := mkFV(64, leaf(0x10, 1, 0x40, []byte{1, 2, 3, 4, 5, 6, 7, 8}))
 	real.Free = freeFor(real.Files...)
 	real.Blocks[0] = hu.Block{Count: uint32(real.Size() / 8), Size: 8}
@@ -60,16 +64,90 @@ func zeroVectorSignature() (*hu.Img, mut) {
 	copy(pad[16:], hu.GuidNVAR)
 	binary.LittleEndian.PutUint64(pad[32:], uint64(40+real.Size()))
 	img := &hu.Img{Bios: &hu.Bios{Items: []hu.Item{{Pad: pad, FV: real}}}}
+	o, class := 0, "fv"
+	if first != nil {
+		img.Bios.Items = append([]hu.Item{{FV: first}}, img.Bios.Items...)
+		// "zx": in a later volume the case is compared with the model only (one known finding, one oracle case)
+		o, class = first.Size(), "zx"
+	}
 	// make the phantom header sum to zero once the 'G' has become an 'H'
 	b := img.Ser()
-	b[40+3] = 'H'
+	b[o+40+3] = 'H'
 	var s uint16
 	for i := 0; i < 112; i += 2 {
-		s += binary.LittleEndian.Uint16(b[i:])
+		s += binary.LittleEndian.Uint16(b[o+i:])
 	}
 	// (the real header sums to zero whatever its zero vector holds, so the correction goes into the padding)
 	binary.LittleEndian.PutUint16(pad[0:], 0-s)
-	return img, mut{40 + 3, 'H', "fv"}
+	return img, mut{o + 40 + 3, 'H', class}
+}
+
+// craftedDeep: hand-made cases for the image-level theorem over paths (follow-up wp-c09b): every classified
+// position of the second and third volume of a region and of nested volumes; the two exceptions of the
+// theorem met in a later / nested volume (classes "zx", "fx", "ns": compared with the model only — the
+// verdict of the theorem, `z` / `f` / `T`, is compared as well).
+func craftedDeep() []core.Case {
+	var cs []core.Case
+	body8 := []byte{1, 2, 3, 4, 5, 6, 7, 8}
+	mkInner := func(g byte) *hu.FV {
+		v := mkFV(64, leaf(g, 1, 0x40, body8))
+		v.Free = freeFor(v.Files...)
+		v.Blocks[0] = hu.Block{Count: uint32(v.Size() / 8), Size: 8}
+		return v
+	}
+	holder := func(g byte, attrs uint8, inner *hu.FV) *hu.FV {
+		nest := &hu.File{Kind: "fs", GUID: guidN(g), Type: 0x0B, Attrs: attrs, State: 0xF8, Secs: []*hu.Sec{{Kind: "sf", FV: inner}}}
+		return mkFV(freeFor(nest), nest)
+	}
+	// four volumes with paddings: plain; holder of a nested volume that itself holds a nested volume (inner holder
+	// with body checksum); the same chain without any body checksum on the way down (an alteration at depth 2 is
+	// seen by the checks of the innermost nodes only); plain
+	deep2 := holder(0x70, 0x40, mkInner(0x40))
+	v3 := holder(0x60, 0, holder(0x80, 0, mkInner(0x90)))
+	v0 := mkFV(freeFor(leaf(0x10, 1, 0x40, body8), leaf(0x20, 1, 0, body8)), leaf(0x10, 1, 0x40, body8), leaf(0x20, 1, 0, body8))
+	v1 := holder(0x50, 0, deep2)
+	v2 := mkFV(freeFor(leaf(0x30, 1, 0x40, body8)), leaf(0x30, 1, 0x40, body8))
+	pad := make([]byte, 16)
+	for i := range pad {
+		pad[i] = 0xFF
+	}
+	img := &hu.Img{Bios: &hu.Bios{Items: []hu.Item{{FV: v0}, {Pad: pad, FV: v1}, {FV: v3}, {Pad: pad, FV: v2}}, Tail: []byte{1, 2, 3}}}
+	in := img.Ser()
+	ms := mutsFor(nil, img, in, -1)
+	for _, n := range recipeNodes(img) {
+		if n.Kind == 'v' && n.Depth > 0 {
+			for k := 40; k < 44; k++ {
+				for _, v := range threeValues(in[n.Pos+k]) {
+					ms = append(ms, mut{n.Pos + k, v, "ns"})
+				}
+			}
+		}
+	}
+	cs = append(cs, core.Case{Kind: "deep-all", Op: "imgmuts", Args: map[string]string{"recipe": img.Recipe(), "muts": mutsText(ms)}})
+
+	// exception F-C09-zerovector met by the second volume of a region
+	zi, zm := zeroVectorSignatureAfter(mkFV(freeFor(leaf(0x20, 1, 0x40, body8)), leaf(0x20, 1, 0x40, body8)))
+	cs = append(cs, mutCase("x2-zerovector-second-volume", zi, zm, mut{zm.off, 'I', "fv"}, mut{zm.off - 3, 0x60, "fv"}))
+
+	// exception F-C09-freespace met inside a nested volume (holder file without body checksum), and the same
+	// alteration inside a holder with body checksum: there the outer file's checksum notices it (verdict T)
+	bodyFF := make([]byte, 0xFFFF-24)
+	for i := range bodyFF {
+		bodyFF[i] = 0xFF
+	}
+	for _, attrs := range []uint8{0, 0x40} {
+		fk := leaf(0x10, 1, 0x00, bodyFF)
+		gk := leaf(0x30, 1, 0x40, body8)
+		inner := mkFV(freeFor(fk, gk), fk, gk)
+		outer := holder(0x50, attrs, inner)
+		pos := 72 + 24 + 4 + 72 + 22
+		class, name := "fx", "x2-freespace-nested"
+		if attrs != 0 {
+			class, name = "bd", "x2-freespace-nested-checksummed-holder"
+		}
+		cs = append(cs, mutCase(name, single(outer), mut{pos, 0xFF, class}, mut{pos, 0x01, "fh"}))
+	}
+	return cs
 }
 
 func crafted() []core.Case {
@@ -158,4 +236,4 @@ func crafted() []core.Case {
 }
 
 // CraftedCases exposes the hand-made cases (used to write corpus/C09).
-func CraftedCases() []core.Case { return append(crafted(), craftedSeq()...) }
+func CraftedCases() []core.Case { return append(append(crafted(), craftedSeq()...), craftedDeep()...) }
